@@ -238,6 +238,9 @@ enum KOp {
 	Checkpoint,
 	Restore,
 	Reopen,
+	/// rotate the active memtable WITHOUT flushing it (crate-internal): an immutable memtable stays queued.
+	/// Only in the fixed programs below, not in the enumerated alphabet.
+	Rotate,
 }
 
 async fn checkpoint_enum_impl(maxlen: usize, name: &str) {
@@ -255,12 +258,29 @@ async fn checkpoint_enum_impl(maxlen: usize, name: &str) {
 	let mut samples: Vec<String> = Vec::new();
 	for vlog in [false, true] {
 		for len in 2..=maxlen {
-			for code in 0..alpha.len().pow(len as u32) {
+			// FIXED PROGRAMS (run once per value-log setting, appended to the enumeration of length 2): checkpoints taken
+			// while one or two immutable memtables are still queued and the active memtable holds data
+			let fixed: Vec<Vec<KOp>> = if len == 2 {
+				vec![
+					vec![KOp::Set(0), KOp::Rotate, KOp::Set(1), KOp::Checkpoint, KOp::Set(0), KOp::Flush, KOp::Restore],
+					vec![KOp::Set(1), KOp::Rotate, KOp::Del(0), KOp::Rotate, KOp::Set(1), KOp::Checkpoint, KOp::Del(1), KOp::Restore, KOp::Reopen],
+					vec![KOp::Set(0), KOp::Rotate, KOp::Set(1), KOp::Rotate, KOp::Set(0), KOp::Checkpoint, KOp::Flush, KOp::Set(1), KOp::Restore],
+					vec![KOp::Set(1), KOp::Rotate, KOp::Set(0), KOp::Rotate, KOp::Checkpoint, KOp::Set(0), KOp::Set(1), KOp::Compact, KOp::Restore, KOp::Reopen],
+				]
+			} else {
+				Vec::new()
+			};
+			let enumerated = alpha.len().pow(len as u32);
+			for code in 0..enumerated + fixed.len() {
 				let mut ops = Vec::new();
-				let mut x = code;
-				for _ in 0..len {
-					ops.push(alpha[x % alpha.len()]);
-					x /= alpha.len();
+				if code >= enumerated {
+					ops = fixed[code - enumerated].clone();
+				} else {
+					let mut x = code;
+					for _ in 0..len {
+						ops.push(alpha[x % alpha.len()]);
+						x /= alpha.len();
+					}
 				}
 				// a restore needs an earlier checkpoint; keep programs with at least one checkpoint followed by a restore
 				let first_cp = ops.iter().position(|o| *o == KOp::Checkpoint);
@@ -275,7 +295,9 @@ async fn checkpoint_enum_impl(maxlen: usize, name: &str) {
 				let dir = tempdir::TempDir::new("verif_c14").unwrap();
 				let dbdir = dir.path().join("db");
 				let build = |p: &std::path::Path| {
-					let mut b = TreeBuilder::new().with_path(p.to_path_buf()).with_level_count(3);
+					// stall threshold 8: the fixed programs queue up to 3 immutable memtables through the crate-internal rotate,
+					// which (unlike the commit path) does not wake the flush task - a commit would wait for ever at the default 2
+					let mut b = TreeBuilder::new().with_path(p.to_path_buf()).with_level_count(3).with_memtable_stall_threshold(8);
 					if vlog {
 						b = b.with_enable_vlog(true).with_vlog_value_threshold(16);
 					}
@@ -330,6 +352,11 @@ async fn checkpoint_enum_impl(maxlen: usize, name: &str) {
 						}
 						KOp::Flush => {
 							let _ = tree.flush();
+						}
+						KOp::Rotate => {
+							if let Err(e) = tree.core.inner.rotate_memtable() {
+								bad = Some(format!("op #{i} rotate_memtable failed: {e}"));
+							}
 						}
 						KOp::Compact => {
 							let _ = tree.compact(strat.clone());
